@@ -460,6 +460,10 @@ impl Display for Operand<'_> {
             | Expr::BitXor(_, _)
             | Expr::Value(Value::Float(_))
             | Expr::Value(Value::Decimal(_)) => write!(formatter, "({})", self.0),
+            // `f.5` and `d.5` would be read back as a float / decimal literal
+            Expr::Reference(name) | Expr::Symbol(name) if name == "f" || name == "d" => {
+                write!(formatter, "({})", self.0)
+            }
             expr => write!(formatter, "{expr}"),
         }
     }
